@@ -456,9 +456,86 @@ func c14Defaults(c *Ctx, withOrder bool) {
 	}
 }
 
+// c14BodyEndsBlock: blank lines are optional, so the line after a target's body reference may be the
+// next request line. Once a call has stored the target's own body it therefore must not consume
+// another input line it has not looked at first (Peek): the original ends the header block there.
+func c14BodyEndsBlock(c *Ctx) {
+	const rule = "after a targeter call has stored the target's own (non-default) body it consumes no further input line without having peeked at it: the next line may already be the next target's request line"
+	w := findScanWrap(c)
+	n := 0
+	for _, tc := range targeterClosures(c) {
+		cl := targeterBody(tc[1])
+		withInline(func() {
+			var stores []*ssa.Store
+			eachInstrI(cl, func(i ssa.Instruction) {
+				st, ok := i.(*ssa.Store)
+				if !ok {
+					return
+				}
+				fa, ok := st.Addr.(*ssa.FieldAddr)
+				if !ok || !isNamedType(fa.X.Type(), "lib", "Target") || fieldName(fa.X.Type(), fa.Field) != "Body" {
+					return
+				}
+				v := rootVal(st.Val)
+				if _, isFV := v.(*ssa.FreeVar); isFV {
+					return // the default body
+				}
+				if ld, isL := isLoad(v); isL {
+					if _, isFV := ld.X.(*ssa.FreeVar); isFV {
+						return
+					}
+				}
+				if isNilConst(v) {
+					return
+				}
+				stores = append(stores, st)
+			})
+			consumes := func(i ssa.Instruction) bool {
+				call, ok := i.(*ssa.Call)
+				if !ok {
+					return false
+				}
+				if w != nil && w.scan != nil && call.Call.StaticCallee() == w.scan {
+					return true
+				}
+				switch callName(&call.Call) {
+				case "(*bufio.Scanner).Scan", "(*bufio.Reader).ReadBytes", "(*bufio.Reader).ReadString", "(*bufio.Reader).ReadLine", "(*bufio.Reader).ReadSlice":
+					return true
+				}
+				return false
+			}
+			for _, st := range stores {
+				// only readers of line-oriented input are concerned: a targeter that never scans has nothing to consume
+				n++
+				key := "body-ends-block:" + shortFn(cl)
+				set := explore(st, false, func(i ssa.Instruction) bool {
+					call, ok := i.(*ssa.Call)
+					return ok && w != nil && w.peek != nil && call.Call.StaticCallee() == w.peek
+				})
+				var bad []ssa.Instruction
+				for i := range set {
+					if consumes(i) {
+						bad = append(bad, i)
+					}
+				}
+				sortInstrs(bad)
+				if len(bad) > 0 {
+					c.Fail(key, rule, "after the body is stored the call goes on consuming lines unseen (the header loop is not left): a request line that directly follows the body line is swallowed into this target", append([]string{c.at(st)}, c.ats(bad)...)...)
+				} else {
+					c.Pass(key, rule, "no unpeeked read reachable after the body store", c.at(st))
+				}
+			}
+		}, cl)
+	}
+	if n == 0 {
+		c.Undecided("body-ends-block:lib", rule, "no store of a target's own body found in any targeter")
+	}
+}
+
 func c14Rest(c *Ctx) {
 	// header case in parsers
 	c06HeaderCase(c)
+	c14BodyEndsBlock(c)
 
 	// JSON target codec
 	tgt := c.P.Named("lib", "Target")
